@@ -137,7 +137,7 @@ def semaphores_only_through_executor(ctx):
            'each acquire must take exactly one unit and issue exactly one token')
 
 
-@rule('C12.f', ['C12'], floor=4)
+@rule('C12.f', ['C12', 'C11'], floor=4)
 def sliding_window_state_is_per_tag(ctx):
     """All sliding-window bookkeeping is keyed by the tag: _tag_sequences, _lowest_sequence and
     _pending_release are mappings, and in acquire/release every access to them goes through
@@ -162,3 +162,37 @@ def sliding_window_state_is_per_tag(ctx):
                              and par._parent.args and norm(par._parent.args[0]) == tag) or \
                             (isinstance(par, ast.Compare) and len(par.ops) == 1 and isinstance(par.ops[0], (ast.In, ast.NotIn)) and norm(par.left) == tag)
                     ctx.ob(m, f'{mname}: self.{attr} accessed by tag', keyed, f'{short(par, 60)} is not an access keyed by {tag}')
+
+
+@rule('C12.g', ['C12'], floor=2)
+def rejected_acquire_changes_nothing(ctx):
+    """On every path of SlidingWindowSemaphore.acquire that ends in `raise NoResourcesAvailable`, nothing
+    touches the bookkeeping: no store / mutation, and no subscript *read* of a defaultdict attribute either
+    (reading `d[tag]` registers the tag: a later release of a token that was never issued is then accepted)."""
+    cl = ctx.cls(SWS)
+    f = cl.methods['acquire']
+    g = ctx.cfg(f)
+    raises = [x for x in own_nodes(f.node) if isinstance(x, ast.Raise) and x.exc is not None and 'NoResourcesAvailable' in norm(x.exc)]
+    ctx.need(raises, 'acquire no longer raises NoResourcesAvailable')
+    rn = set(n for r in raises for n in g.nodes_of(r))
+    init = cl.methods['__init__']
+    dd = {a for a, vals in cl.init_attrs.items() for fn, v in vals if fn is init and isinstance(v, ast.Call) and 'defaultdict' in norm(v.func)}
+    on_path = [n for n in g.nodes if n not in rn and n.ast is not None and (g.reach([n], labels=g.NORMAL) & rn) and n in g.reach([g.entry], labels=g.NORMAL, include_src=True)]
+    bad = []
+    for n in on_path:
+        root = n.ast
+        for x in ast.walk(root) if not isinstance(root, (ast.If, ast.While, ast.For, ast.With, ast.Try)) else ast.walk(getattr(root, 'test', None) or getattr(root, 'iter', None) or ast.Pass()):
+            if isinstance(x, ast.Attribute) and isinstance(x.value, ast.Name) and x.value.id == 'self' and x.attr.startswith('_') and x.attr not in ('_condition', '_lock'):
+                par = getattr(x, '_parent', None)
+                if not isinstance(x.ctx, ast.Load):
+                    bad.append((x, 'store'))
+                elif isinstance(par, ast.Subscript) and par.value is x and (not isinstance(par.ctx, ast.Load) or x.attr in dd):
+                    bad.append((par, 'defaultdict read' if isinstance(par.ctx, ast.Load) else 'store'))
+                elif isinstance(par, ast.Attribute) and par.attr in ('append', 'pop', 'setdefault', 'update', 'remove', 'sort', 'clear', 'add'):
+                    bad.append((par, 'mutation'))
+            if isinstance(x, ast.AugAssign):
+                bad.append((x, 'update'))
+    for x, kind in bad[:3]:
+        ctx.ob(f, x, False, f'{kind} of the semaphore bookkeeping on a path that ends in NoResourcesAvailable: a rejected acquire must leave no trace')
+    ctx.ob(f, 'paths to `raise NoResourcesAvailable` leave the bookkeeping untouched', not bad, f'{len(on_path)} statements/tests lie on those paths')
+    ctx.ob(init, 'defaultdict attributes of the semaphore', True, f'{sorted(dd)}', trivial=True)
